@@ -83,9 +83,9 @@ ASSUMPTIONS = cm.ASSUME_CORE + [
     'that boolean is false"',
 ]
 LEVEL_TEXT = ('Proves the local mechanism of the unknowns list: (1) frame lemma by AST scan: only Parser.__init__ / parse '
-    '(reset to []) and expand_macro / begin_environment (append) store to it; (2) in both appending functions the name is '
+    '(reset to []) and expand_macro / begin_environment (append) store to it (assignments, deletions, slice / element stores, augmented assignments and mutator calls are scanned); (2) in both appending functions the name is '
     'appended only on a path on which `name in self.unknowns` was false for the same list state, the name is not declared, '
-    'and math is false -- hence the list stays duplicate-free and never contains declared names or names met in maths; (3) '
+    'and math is false -- hence the list stays duplicate-free and never contains declared names or names met in maths; for expand_macro additionally as postcondition: the name is recorded iff it is undeclared, used in text mode and was not recorded before, and a declared name is expanded, never recorded; (3) '
     'every call of expand_macro / begin_environment from the maths section loop passes math=True; (4) the --unkn output has '
     'one position per character (composition lemma of tex2txt). Completeness of the list is NOT decided.')
 LEVEL_NOTE = 'Lemma level; "no omission" needs a catalogue-wide semantics.'
